@@ -93,7 +93,7 @@ func sandboxStream(sum *Summary, model *vd.Model, n int, seed int64) {
 	}
 	self, _ := os.Executable()
 	rng := rand.New(rand.NewSource(seed))
-	kinds := []string{"valid", "valid", "valid", "valid", "missing", "directory", "malformed", "wrong-type", "unknown-action", "unknown-syscall", "unknown-operation",
+	kinds := []string{"valid", "valid", "valid", "valid", "valid", "valid", "valid", "valid", "valid", "valid", "missing", "directory", "malformed", "wrong-type", "unknown-action", "unknown-syscall", "unknown-operation",
 		"empty-syscalls", "oversize", "no-command", "no-seccomp-key", "bad-argument-index"}
 	for i := 0; i < n; i++ {
 		kind := kinds[rng.Intn(len(kinds))]
